@@ -12,6 +12,7 @@ mod sx;
 
 mod astdump;
 mod c04a;
+mod c04b;
 mod c05;
 mod c06;
 mod c07;
@@ -107,6 +108,7 @@ fn main() {
     std::panic::set_hook(Box::new(|i| { if std::env::var("VERIF_PANIC_TRACE").is_ok() { eprintln!("{i}"); } }));
     match group.as_str() {
         "c04a" => c04a::run(&args, &mut out),
+        "c04b" => c04b::run(&args, &mut out),
         "c05" => c05::run(&args, &mut out),
         "c06" => c06::run(&args, &mut out),
         "c07" => c07::run(&args, &mut out),
